@@ -1132,6 +1132,11 @@ func verifyPDR(pdr pdr) error {
 		return ErrUnsupported("precedence greater than 65535", pdr.precedence)
 	}
 
+	if pdr.precedence == math.MaxUint16 && !pdr.IsAppFilterEmpty() {
+		// the applications table has ternary/range fields: its entries need a non-zero priority (65535 - precedence)
+		return ErrUnsupported("precedence 65535 for a PDR with an application filter", pdr.precedence)
+	}
+
 	return nil
 }
 
